@@ -159,14 +159,25 @@ def check_packing(ctx, db):
         'if ((oasis_read_int_internal($in, 1, v0) > 0))' in tr and 'return (-v0)' in tr
     ctx.check(ok, 'R-TABLE', 'integer/sign-bit', wi.loc(), 'negative values are written as magnitude with sign bit 1; the reader negates exactly when the bit is set')
     wg, rg = db.fn('gdstk::oasis_write_gdelta'), db.fn('gdstk::oasis_read_gdelta')
-    calls = [(c.args[2].cv, norm(c.args[3].text())) for c in wg.calls('gdstk::oasis_write_int_internal')]
-    form0 = [c for c in calls if c[0] == 4]
-    form1 = [c for c in calls if c[0] != 4]
-    ok = len(form0) == 8 and all(re.match(r'^\(\(uint8_t\)OasisDirection::\w+ << 1\)$', b) for _, b in form0) and sorted(form1) == sorted([(2, '3'), (2, '1'), (1, '1'), (1, '0')])
+    # writer side by evaluation over every sign/equality class of (x, y): octangular deltas are one integer with 4
+    # reserved bits (form bit clear, direction above it), all others two integers with 2 and 1 reserved bits
+    ok = True
+    dirs = set()
+    for x, y in sample_points():
+        if (x, y) == (0, 0):
+            continue
+        cs = writer_table(wg, x, y)
+        octa = x == 0 or y == 0 or abs(x) == abs(y)
+        if octa:
+            ok = ok and len(cs) == 1 and cs[0][1] == 4 and (cs[0][0] & 1) == 0 and 0 <= (cs[0][0] >> 1) < 8
+            dirs |= {cs[0][0] >> 1} if len(cs) == 1 else set()
+        else:
+            ok = ok and len(cs) == 2 and (cs[0][1], cs[1][1]) == (2, 1) and (cs[0][0] & 1) == 1 and cs[0][0] < 4 and cs[1][0] < 2
+    ok = ok and len(dirs) == 8
     tr = norm(clone.canon(rg.body, rg, ren=clone.Renamer(rg, params_by_name=True)))
     ok = ok and 'if (((v0 & 1) == 0))' in tr and '(oasis_read_int_internal($in, 4, v1) >> 1)' in tr and 'if (((oasis_read_int_internal($in, 2, $x) & 2) > 0))' in tr and 'if (((oasis_read_int_internal($in, 1, $y) & 1) > 0))' in tr
     ctx.check(ok, 'R-CONST', 'gdelta/forms', wg.loc(), 'form 0: 4 bits = direction << 1 (form bit 0); form 1: x with 2 bits (1 | sign << 1), y with 1 bit (sign); the reader tests the same bits',
-              'g-delta bit layouts differ: writer %s' % calls)
+              'g-delta bit layouts differ between writer (evaluated over all sign/equality classes) and reader')
 
 
 def sample_points():
@@ -175,25 +186,49 @@ def sample_points():
 
 
 def writer_table(fn, x, y):
-    """Which oasis_write_int_internal calls does the writer reach for (x, y)? -> [(bits value, n, magnitude)]"""
+    """Which oasis_write_int_internal calls does the writer reach for (x, y)? -> [(bits value, n, magnitude)]
+    Straight-line interpretation of the (loop-free) writer body on concrete integers: locals, assignments,
+    if/else, conditional expressions and early returns are followed."""
     out = []
+    env = {'x': x, 'y': y}
+
+    class Ret(Exception):
+        pass
 
     def go(s):
-        if s is None:
+        if s is None or s.k == 'NullStmt':
             return
         if s.k == 'CompoundStmt':
             for c in s.c:
                 go(c)
             return
         if s.k == 'IfStmt':
-            if ieval(s.child('cond'), {'x': x, 'y': y}):
+            if ieval(s.child('cond'), env):
                 go(s.child('then'))
             else:
                 go(s.child('else'))
             return
+        if s.k == 'DeclStmt':
+            for v in s.c:
+                if v is not None and v.k == 'VarDecl' and v.child('init') is not None:
+                    env[v.n] = ieval(v.child('init'), env)
+            return
+        if s.k == 'ReturnStmt':
+            raise Ret()
+        if is_assign(s) and s.op == '=' and _strip_casts(s.child('lhs')).k == 'DeclRefExpr':
+            env[_strip_casts(s.child('lhs')).n] = ieval(s.child('rhs'), env)
+            return
         if s.k == 'CallExpr' and s.callee == 'gdstk::oasis_write_int_internal':
-            out.append((ieval(s.args[3], {'x': x, 'y': y}), s.args[2].cv, ieval(s.args[1], {'x': x, 'y': y})))
-    go(fn.body)
+            nb = _strip_casts(s.args[2])
+            out.append((ieval(s.args[3], env), nb.cv if nb.cv is not None else ieval(nb, env), ieval(s.args[1], env)))
+            return
+        if not any(x.k in ('CallExpr', 'CXXMemberCallExpr', 'CompoundAssignOperator') or is_assign(x) or (x.k == 'UnaryOperator' and x.op in ('++', '--', 'post++', 'post--')) for x in s.walk()):
+            return      # effect-free expression statement, e.g. a disabled assert
+        raise AnalysisBroken('%s: statement not interpretable: %s `%s`' % (fn.qn, s.k, s.text()[:60]))
+    try:
+        go(fn.body)
+    except Ret:
+        pass
     return out
 
 
